@@ -909,3 +909,126 @@ theorem parseFV_render_bool (F : FloatCodec) (b : Bool) : parseFV F (renderFV F 
   cases b <;> simp [renderFV, parseFV, boolLits, List.lookup, DQ]
 
 end Kap.C18
+namespace Kap.C18
+open List
+
+/-- one step of `parseNat?`'s fold -/
+def pstep (acc : Option Nat) (c : UInt8) : Option Nat :=
+  match acc with
+  | some n => if 48 ≤ c ∧ c ≤ 57 then some (n * 10 + (c.toNat - 48)) else none
+  | none => none
+
+theorem parseNat?_eq (s : Bytes) : parseNat? s = if s.isEmpty then none else s.foldl pstep (some 0) := by
+  unfold parseNat?
+  rfl
+
+theorem digit_facts : ∀ k, k < 10 →
+    (48 ≤ UInt8.ofNat (48 + k) ∧ UInt8.ofNat (48 + k) ≤ 57) ∧ (UInt8.ofNat (48 + k)).toNat - 48 = k ∧
+    UInt8.ofNat (48 + k) ≠ 45 ∧ UInt8.ofNat (48 + k) ≠ DQ ∧ UInt8.ofNat (48 + k) ≠ 105 := by decide
+
+theorem pstep_digit (a k : Nat) (hk : k < 10) : pstep (some a) (UInt8.ofNat (48 + k)) = some (a * 10 + k) := by
+  obtain ⟨h1, h2, _⟩ := digit_facts k hk
+  simp only [pstep]
+  rw [if_pos h1, h2]
+
+theorem fold_natDigitsAux (fuel n : Nat) (h : n < fuel) :
+    (natDigitsAux fuel n).foldl pstep (some 0) = some n := by
+  induction fuel generalizing n with
+  | zero => omega
+  | succ f ih =>
+    simp only [natDigitsAux]
+    by_cases hn : n < 10
+    · simp only [hn, if_true, List.foldl_cons, List.foldl_nil]
+      rw [pstep_digit 0 n hn]; simp
+    · simp only [hn, if_false, List.foldl_append, List.foldl_cons, List.foldl_nil]
+      rw [ih (n / 10) (by omega), pstep_digit _ _ (Nat.mod_lt _ (by omega))]
+      congr 1; omega
+
+theorem parseNat?_natDigits (n : Nat) : parseNat? (natDigits n) = some n := by
+  rw [parseNat?_eq]
+  have hne := natDigits_ne_nil n
+  have : (natDigits n).isEmpty = false := by
+    cases h : natDigits n with
+    | nil => exact absurd h hne
+    | cons _ _ => rfl
+  rw [this]
+  exact fold_natDigitsAux (n + 1) n (by omega)
+
+
+theorem natDigits_head (n : Nat) : ∃ d r, natDigits n = d :: r ∧ isDigitB d := by
+  have hne := natDigits_ne_nil n
+  cases h : natDigits n with
+  | nil => exact absurd h hne
+  | cons d r =>
+    refine ⟨d, r, rfl, ?_⟩
+    have : d ∈ natDigits n := by rw [h]; simp
+    exact natDigitsAux_digits _ _ d this
+
+theorem isDigitB_ne (d : UInt8) (h : isDigitB d) : d ≠ 45 ∧ d ≠ DQ ∧ d ≠ 105 := by
+  obtain ⟨k, hk, rfl⟩ := h
+  exact (digit_facts k hk).2.2
+
+/-- **Decimal round trip**: `strconv.FormatInt(v,10)` parsed back is `v`, for every integer. -/
+theorem parseInt?_intDigits (v : Int) : parseInt? (intDigits v) = some v := by
+  unfold intDigits
+  by_cases hv : v < 0
+  · rw [if_pos hv]
+    have e : (-((v.natAbs : Nat) : Int)) = v := by omega
+    show (parseNat? (natDigits v.natAbs)).map (fun n => -(n : Int)) = some v
+    rw [parseNat?_natDigits]
+    exact congrArg some e
+  · rw [if_neg hv]
+    obtain ⟨d, r, hd, hdig⟩ := natDigits_head v.natAbs
+    have h45 := (isDigitB_ne d hdig).1
+    have : parseInt? (natDigits v.natAbs) = (parseNat? (natDigits v.natAbs)).map (fun n => (n : Int)) := by
+      rw [hd]
+      unfold parseInt?
+      split
+      · rename_i rest heq
+        simp only [List.cons.injEq] at heq
+        exact absurd heq.1 h45
+      · rfl
+    have e : ((v.natAbs : Nat) : Int) = v := by omega
+    rw [this, parseNat?_natDigits]
+    exact congrArg some e
+
+theorem intDigits_head (v : Int) : ∃ d r, intDigits v = d :: r ∧ d ≠ DQ := by
+  unfold intDigits
+  by_cases hv : v < 0
+  · rw [if_pos hv]; exact ⟨45, _, rfl, by decide⟩
+  · rw [if_neg hv]
+    obtain ⟨d, r, hd, hdig⟩ := natDigits_head v.natAbs
+    exact ⟨d, r, hd, (isDigitB_ne d hdig).2.1⟩
+
+/-- **types_preserved_stream (integers)**: every int64 is written as `<decimal>i` and read back as the same INTEGER. -/
+theorem parseFV_render_int (F : FloatCodec) (v : Int) (hr : -(2:Int)^63 ≤ v ∧ v < (2:Int)^63) :
+    parseFV F (renderFV F (.int v)) = some (.int v) := by
+  obtain ⟨d, r, hd, hdq⟩ := intDigits_head v
+  have h1 : (intDigits v ++ [105]).getLast? = some 105 := by simp
+  have h2 : (intDigits v ++ [105]).dropLast = intDigits v := by simp
+  show parseFV F (intDigits v ++ [105]) = _
+  have hcons : intDigits v ++ [105] = d :: (r ++ [105]) := by rw [hd]; rfl
+  unfold parseFV
+  rw [hcons]
+  simp only [hdq, if_false]
+  rw [← hcons, h1, h2, parseInt?_intDigits]
+  have hr' : -(2:Int)^63 ≤ v ∧ v < (2:Int)^63 := hr
+  simp only [if_true, Option.bind_some, hr', and_self]
+
+/-- The law of the external float codec for one bit pattern: the text is a number (does not start with a quote, does
+not end in `i`, is not a boolean literal) and parses back to the same bits. True of `strconv` for every finite float. -/
+def FloatLaw (F : FloatCodec) (b : Nat) : Prop :=
+  (∃ c r, F.fmt b = c :: r ∧ c ≠ DQ) ∧ (F.fmt b).getLast? ≠ some 105 ∧ boolLits.lookup (F.fmt b) = none ∧
+  F.parse (F.fmt b) = some b
+
+theorem parseFV_render_float (F : FloatCodec) (b : Nat) (h : FloatLaw F b) :
+    parseFV F (renderFV F (.float b)) = some (.float b) := by
+  obtain ⟨⟨c, r, hc, hdq⟩, hl, hb, hp⟩ := h
+  show parseFV F (F.fmt b) = _
+  unfold parseFV
+  rw [hc]
+  simp only [hdq, if_false]
+  rw [← hc]
+  simp [hl, hb, hp]
+
+end Kap.C18
